@@ -37,7 +37,7 @@ ASSUMPTIONS = [
 ]
 MIN_OBS = {"steps_executed": 4000, "attach_contract_evaluations": 300, "attach_rejections_checked": 1000, "core_reuses": 1000, "shadow_sweeps": 4000, "cores_evaluated": 200}
 CASE_TIMEOUT = 180
-STEPS = ["build", "build", "execute", "execute", "process", "process", "attach_valid", "attach_again", "attach_none", "attach_nonmarker"]
+STEPS = ["build", "build", "execute", "execute", "process", "process", "attach_valid", "attach_again", "attach_none", "attach_nonmarker", "faulted", "faulted"]
 
 
 def setup(tier):
@@ -198,6 +198,57 @@ def run_case(case):
                             elif find_core_node(ent["rel"], cr["spec"]["prog"][2]) is cr["node"]:
                                 cr["reuses"] += 1
                                 c["core_reuses"] = c.get("core_reuses", 0) + 1
+                elif kind == "faulted":
+                    # an evaluation that FAILS half-way: the core's leaf stops delivering rows at a
+                    # random position, or a Processor hook raises.  Nothing half-done may be cached:
+                    # whatever payload exists afterwards is checked like any other (rows = model, never
+                    # replaced), and later evaluations must still be right.
+                    from ..dbx import FaultyProcessor, InjectedFault
+
+                    cr = cores[ent["core"]]
+                    pl = b.leaf_payloads.get(cr["spec"]["leaf"])
+                    native = isinstance(ent["rel"].engine, iteration.Engine) and not any(isinstance(n.engine, sql.Engine) for n in interp.walk(ent["rel"]))
+                    leaf_fault = pl is not None and hasattr(pl, "fail_at") and rng.random() < 0.6
+                    starts0 = pl.starts if pl is not None and hasattr(pl, "starts") else 0
+                    before = [x["node"].payload for x in cores]
+                    proc = None
+                    try:
+                        if leaf_fault:
+                            pl.fail_at = rng.randint(0, len(pl))
+                        if native and leaf_fault:
+                            rows = names_rows(ent["rel"].engine.execute(ent["rel"]))
+                        else:
+                            proc = FaultyProcessor(db, None if leaf_fault else rng.randint(1, 3))
+                            rows, _, _ = multi.evaluate(ent["rel"], db, proc)
+                        check_rows(ent, rows, what + " (no fault fired)")
+                    except InjectedFault:
+                        c["faults_injected"] = c.get("faults_injected", 0) + 1
+                        kind = "faulted_fired"
+                    finally:
+                        if pl is not None and hasattr(pl, "fail_at"):
+                            pl.fail_at = None
+                        if proc is not None:
+                            proc_log.extend(proc.completed)  # a hook call that failed computed nothing
+                    if pl is not None and hasattr(pl, "starts") and kind == "faulted_fired":
+                        # iterations started by the failed attempt do not count against "at most once"
+                        cr["fault_starts"] = cr.get("fault_starts", 0) + (pl.starts - starts0)
+                    for x, old in zip(cores, before):
+                        if x["node"].payload is not None and old is None:
+                            x["evaluated"] += 1
+                            if kind == "faulted_fired":
+                                c["payloads_stored_by_a_failed_evaluation"] = c.get("payloads_stored_by_a_failed_evaluation", 0) + 1
+                                # legitimate only if the rows are complete: judged right here
+                                p_now = x["node"].payload
+                                if isinstance(p_now, iteration.RowIterable):
+                                    try:
+                                        want_c = m.eval(c09_strip(x["spec"]["prog"]))
+                                        got_c = names_rows(p_now)
+                                        if model.canon(got_c) != model.canon(want_c.rows):
+                                            out["violations"].append({"kind": "partial_payload_cached_by_failed_evaluation", "detail": f"{what}: {x['spec']['prog'][2]} now holds {short(model.canon(got_c), 200)}, complete rows are {short(model.canon(want_c.rows), 200)}"})
+                                    except (model.Skip, model.ModelError):
+                                        pass
+                                    except InjectedFault:
+                                        out["violations"].append({"kind": "partial_payload_cached_by_failed_evaluation", "detail": f"{what}: the payload stored on {x['spec']['prog'][2]} still reads from the failed source"})
                 elif kind == "attach_valid":
                     cr = cores[ent["core"]]
                     node = cr["node"]
@@ -317,7 +368,7 @@ def run_case(case):
                 out["violations"].append({"kind": "materialization_computed_more_than_once", "detail": f"{name}: {len(hook_calls)} hook calls over the history ({[x[0] for x in hook_calls]})"})
             pl = b.leaf_payloads.get(spec["leaf"])
             if pl is not None and hasattr(pl, "starts"):
-                allowed = leaf_occurrences(spec["prog"][1], spec["leaf"])
+                allowed = leaf_occurrences(spec["prog"][1], spec["leaf"]) + cr.get("fault_starts", 0)
                 c["core_leaf_iteration_starts"] = c.get("core_leaf_iteration_starts", 0) + pl.starts
                 if pl.starts > allowed:
                     out["violations"].append({"kind": "core_upstream_evaluated_more_than_once", "detail": f"{name}: leaf {spec['leaf']} started {pl.starts} iterations over the history, at most {allowed} allowed (one evaluation of {model.show(spec['prog'][1])}); steps {kinds}"})
